@@ -28,14 +28,14 @@ import (
 type Window struct{ NotBefore, NotAfter time.Time }
 
 // Windows are the four validity windows certificates are drawn from (index 0 is
-// the default): W0 wide; W1 nested in W0 and ending 30 s before W0 ends; W2
+// the default): W0 wide; W1 nested in W0 and ending 2 s before W0 ends; W2
 // touching W1 (it begins at the very instant W1 ends) and overlapping the last
-// 30 s of W0; W3 disjoint from all others. The 30 s offsets put validity
-// boundaries of parents inside the last minute of a child's validity.
+// 2 s of W0; W3 disjoint from all others. The 2 s offsets put validity
+// boundaries of parents inside the last seconds of a child's validity.
 var Windows = [4]Window{
 	{fx.T0.Add(-48 * time.Hour), fx.T0.Add(48 * time.Hour)},
-	{fx.T0.Add(-24 * time.Hour), fx.T0.Add(48*time.Hour - 30*time.Second)},
-	{fx.T0.Add(48*time.Hour - 30*time.Second), fx.T0.Add(72 * time.Hour)},
+	{fx.T0.Add(-24 * time.Hour), fx.T0.Add(48*time.Hour - 2*time.Second)},
+	{fx.T0.Add(48*time.Hour - 2*time.Second), fx.T0.Add(72 * time.Hour)},
 	{fx.T0.Add(96 * time.Hour), fx.T0.Add(120 * time.Hour)},
 }
 
